@@ -577,3 +577,92 @@ def run_terminated(prog, ctx=None):
             res.ob("%s:%s" % (f.qn, norm(show(e, f))[:60]), ok, f, e.get("l", f.line),
                    "" if ok else "%s bytes are copied into the block sized %s + 1, but a path through this copy stores no terminator at [%s]" % (allocs[vid], allocs[vid], allocs[vid]))
     return res
+
+
+def run_resetsame(prog, ctx=None):
+    """RESETSAME: in the branch a setter takes for one property name, resetting (no source) and setting touch the same
+    member: the members stored on the `!src` path overlap the members the value path writes or hands to its parser
+    (`wld->attr.width` against `&wld->attr`; not `wld->cyc` against `&wld->color`).  A reset that restores the default of
+    another member leaves the named property as it was and changes a property that was not named."""
+    res = Result("RESETSAME")
+    for kind in KINDS:
+        f = prog.func("mpt_%s_set" % kind)
+        if f is None:
+            raise Broken("anchor missing: mpt_%s_set" % kind)
+        if len(f.params) < 3:
+            continue
+        oid, nid, sid = f.params[0]["id"], f.params[1]["id"], f.params[2]["id"]
+        dom = f.dominators()
+
+        def region(bid):
+            return {x for x in f.blocks if bid in dom[x]}
+
+        def obj_paths(e, lhs_only=False):
+            out = set()
+            for n in walk_own(e) if isinstance(e, dict) else []:
+                if n.get("k") == "bin" and n.get("op", "").endswith("=") and n["op"] not in ("==", "!=", "<=", ">="):
+                    p, root = mem_path(n["a"])
+                    if p and isinstance(root, dict) and root.get("k") == "ref" and root["d"].get("id") == oid:
+                        out.add(p)
+                if not lhs_only and n.get("k") == "call":
+                    for a in n.get("args", []):
+                        s = strip(a, all_casts=True)
+                        if s.get("k") == "un" and s.get("op") == "&":
+                            s = strip(s["e"], lvalue_to_rvalue=False)
+                        p, root = mem_path(s)
+                        if p and isinstance(root, dict) and root.get("k") == "ref" and root["d"].get("id") == oid:
+                            out.add(p)
+            return out
+
+        for bid, blk in sorted(f.blocks.items(), reverse=True):
+            t = blk.term
+            if not (t and t.get("cond") is not None and t.get("cls") == "IfStmt" and len(blk.succ) == 2 and blk.succ[0] is not None):
+                continue
+            names = []
+            for n in walk(t["cond"]):
+                if n.get("k") == "call" and callee_name(n) in STRCMP and len(n.get("args", [])) >= 2:
+                    a0 = strip(n["args"][0], all_casts=True)
+                    a1 = strip(n["args"][1], all_casts=True)
+                    if a0.get("k") == "ref" and a0["d"].get("id") == nid and a1.get("k") == "str":
+                        names.append(a1.get("s"))
+            # the chain `!strcasecmp(a) || !strcasecmp(b)` is split over blocks: take the block that branches into the body
+            if not names:
+                continue
+            body = region(blk.succ[0])
+            if not body or bid in body:
+                continue
+            # the reset sub-branch: an IfStmt inside the body whose condition tests the source parameter for null
+            resets = set()
+            for x in sorted(body):
+                b2 = f.blocks[x]
+                t2 = b2.term
+                if not (t2 and t2.get("cond") is not None and len(b2.succ) == 2):
+                    continue
+                c = strip(t2["cond"], all_casts=True)
+                first = c
+                while first.get("k") == "bin" and first.get("op") in ("||", "&&"):
+                    first = strip(first["a"], all_casts=True)
+                if first.get("k") == "un" and first.get("op") == "!":
+                    v = strip(first["e"], all_casts=True)
+                    if v.get("k") == "ref" and v["d"].get("id") == sid and b2.succ[0] is not None:
+                        resets |= region(b2.succ[0]) & body
+            if not resets:
+                continue
+            p_reset, p_set = set(), set()
+            for x in body:
+                for e in f.blocks[x].el:
+                    if x in resets:
+                        p_reset |= obj_paths(e, lhs_only=True)
+                    else:
+                        p_set |= obj_paths(e)
+                if x not in resets and f.blocks[x].term and f.blocks[x].term.get("cond") is not None:
+                    for n in walk(f.blocks[x].term["cond"]):
+                        if n.get("k") == "call":
+                            p_set |= obj_paths(n)
+            if not p_reset or not p_set:
+                continue
+            bad = [p for p in sorted(p_reset) if not any(p == q or p.startswith(q + ".") or q.startswith(p + ".") for q in p_set)]
+            res.ob("mpt_%s_set:%s" % (kind, "/".join(names)), not bad, f, t.get("l", f.line) or f.line,
+                   "" if not bad else "for property '%s' the reset path restores %s while the value path writes %s: resetting leaves the named property unchanged and changes another one" % (
+                       names[0], ", ".join(bad), ", ".join(sorted(p_set))))
+    return res
